@@ -87,7 +87,7 @@ def count_driver(u):
         ("C04.frame", "final(w).fs == old(w).fs && same_but_fs(World { log: final(w).log, stop_seen: final(w).stop_seen, ..*old(w) }, *final(w))"),
         ("C18.check,C05.verdict,C17.skip", "res.is_none() ==> final(w).stop_seen"),
         ("C18.check", "final(w).stop_seen ==> old(w).stop_seen || res.is_none()"),
-        ("C05.verdict", "res.is_some() ==> res.unwrap() as int == tree_missing(old(w).files, old(w).fs, CFG, old(w).files.len() as int)"),
+        ("C05.verdict,C17.skip", "res.is_some() ==> res.unwrap() as int == tree_missing(old(w).files, old(w).fs, CFG, old(w).files.len() as int)"),
     ]
     f.requires += pre
     f.ensures += [(l, x.replace("CFG", cfg)) for l, x in post]
@@ -101,7 +101,7 @@ def count_driver(u):
         "tree_missing(files, fs0, cfg, files.len() as int) <= u32::MAX",
         ("C04.frame", "w.fs == old(w).fs && same_but_fs(World { log: w.log, stop_seen: w.stop_seen, ..*old(w) }, *w)"),
         ("C18.check", "w.stop_seen == old(w).stop_seen"),
-        ("C05.verdict", "all_map_results@ == count_results(files, fs0, cfg, it.index@)"),
+        ("C05.verdict,C17.skip", "all_map_results@ == count_results(files, fs0, cfg, it.index@)"),
         ("C05.verdict", "forall|i: int| 0 <= i < it.index@ ==> file_missing(fs0, cfg, #[trigger] files[i]) <= u32::MAX"),
     ], iter_name="it", kind="for")
     blk.before_stmt("let path = file.path.clone();", "proof { lemma_tree_missing_mono(files, fs0, cfg, it.index@ + 1, files.len() as int);"
@@ -139,7 +139,7 @@ def nextid_driver(u):
         "finder_ok(finder.code_files@, *w)",
         "tree_missing(files, fs0, cfg, files.len() as int) <= u32::MAX",
         ("C04.frame", "w.fs == old(w).fs && same_but_fs(World { log: w.log, stop_seen: w.stop_seen, ..*old(w) }, *w)"),
-        ("C01.next,C05.same", "all_map_results@ == nextid_results(files, fs0, cfg, it.index@)"),
+        ("C01.next,C05.same,C17.skip", "all_map_results@ == nextid_results(files, fs0, cfg, it.index@)"),
         ("C05.same", "forall|i: int| 0 <= i < it.index@ ==> file_missing(fs0, cfg, #[trigger] files[i]) <= u32::MAX"),
     ], iter_name="it", kind="for")
     blk.before_stmt("let path = file.path.clone();", "proof { lemma_tree_missing_mono(files, fs0, cfg, it.index@ + 1, files.len() as int);"
@@ -165,7 +165,7 @@ def insert_driver(u):
         ("C01.unique", "alloc_inv(*final(w), CFG, old(w).counter)"),
         ("C01.nowrap", "old(w).counter <= final(w).counter <= u32::MAX"),
         ("C18.edit,C08.fail,C17.skip", "res.is_none() ==> final(w).stop_seen"),
-        ("C08.fail", "res.is_some() && !res.unwrap().failure ==> all_edited(*final(w), CFG, final(w).files.len() as int)"),
+        ("C08.fail,C17.skip", "res.is_some() && !res.unwrap().failure ==> all_edited(*final(w), CFG, final(w).files.len() as int)"),
         ("C05.count", "res.is_some() && !res.unwrap().failure ==> res.unwrap().num_inserted_references as int == tree_missing(old(w).files, old(w).orig, CFG, old(w).files.len() as int)"),
         ("C06.noop", "tree_missing(old(w).files, old(w).orig, CFG, old(w).files.len() as int) == 0 ==> final(w).fs == old(w).fs && final(w).counter == old(w).counter"),
         ("C02.lockframe", "final(w).fs.dom().contains(lock_path()) == old(w).fs.dom().contains(lock_path()) && final(w).fs[lock_path()] == old(w).fs[lock_path()]"),
